@@ -141,6 +141,10 @@ func (mr *msgReader) putFlateReader() {
 	if mr.flateReader != nil {
 		putFlateReader(mr.flateReader)
 		mr.flateReader = nil
+		// limitReader must not keep reading from a flate reader that now belongs to the pool.
+		// Reads after the end of the message report io.EOF from the raw frame reader.
+		mr.limitReader.r = mr.readFunc
+		mr.flateTail.Reset("")
 	}
 }
 
